@@ -73,7 +73,7 @@ def run(tier, replay=None):
         w = json.load(open(replay))["witness"]
         cases = [w["case"]]
     hc = [{"id": i + 1, "mode": "observe", "text": c["text"], "want": ["nodes"]} for i, c in enumerate(cases)]
-    tp, evs = run_harness(rvh, hc, wd, "lit")
+    tp, evs = run_harness_par(rvh, hc, wd, "lit")
     for e, c in zip(evs, cases):
         e["case"] = c
     write_ndjson(tp, evs)
